@@ -1961,6 +1961,15 @@ def gen_tool_cases(seed, tier):
                 opt = "-c" if tool == "ctr" else "-t"
                 bad += [dict(tool=tool, why="counter/tweak too long", args=B + ["-k", k, opt, rb(bs + 1).hex(), "@IN", "@OUT"]),
                         dict(tool=tool, why="non-hex counter/tweak", args=B + ["-k", k, opt, "0g", "@IN", "@OUT"])]
+                # the same invalid options in every other order (the verdict must not depend on it)
+                for ol in ((9, 12, 16) if bs == 8 else (17,)):
+                    big = rb(ol).hex()
+                    bad += [dict(tool=tool, why="counter/tweak too long, given before -b", args=[opt, big, "-k", k] + B + ["@IN", "@OUT"]),
+                            dict(tool=tool, why="counter/tweak too long, given before -b and -k", args=[opt, big] + B + ["-k", k, "@IN", "@OUT"]),
+                            dict(tool=tool, why="counter/tweak too long, -b given twice", args=["-b", "128", opt, big, "-k", k] + B + ["@IN", "@OUT"])]
+            # key length judged against the block size in force after ALL options
+            bad += [dict(tool=tool, why="key too long, given before -b", args=["-k", rb(maxk + 1).hex()] + B + ["@IN", "@OUT"]),
+                    dict(tool=tool, why="key too short for the final block size", args=["-b", "64", "-k", rb(8).hex(), "-b", "128", "@IN", "@OUT"])]
     return good, bad
 
 
@@ -1970,6 +1979,7 @@ def check_C20(work, tier, seed):
     if not ok:
         mc_violation("C20", out, "MC_Tools", r)
     run_mc(work, out, "MC_Tools", "MCneg_Tools_chunk", expect_fail=True)
+    run_mc(work, out, "MC_Tools", "MCneg_Tools_inloop", expect_fail=True)
     b = build(work, tools=True, drv=False)
     tooldir = work.sub("tools")
     good, bad = gen_tool_cases(seed, tier)
@@ -1978,12 +1988,15 @@ def check_C20(work, tier, seed):
     idx = 0
     for c in good:
         idx += 1
-        args = ["-b", str(c["bs"] * 8), "-k", c["key"].hex()]
+        groups = [["-b", str(c["bs"] * 8)], ["-k", c["key"].hex()]]
         if c["tw"] is not None:
-            args += ["-c" if c["tool"] == "ctr" else "-t", c["tw"].hex()]
+            groups.append(["-c" if c["tool"] == "ctr" else "-t", c["tw"].hex()])
         if c["dec"]:
-            args += ["-d"]
-        args += ["@IN", "@OUT"]
+            groups.append(["-d"])
+        rng.shuffle(groups)                      # options in any order
+        if c["bs"] == 8 and rng.random() < 0.3:
+            groups.insert(0, ["-b", "128"])       # an earlier -b is overridden by the later one
+        args = [a for g in groups for a in g] + ["@IN", "@OUT"]
         rc, ex, data = run_tool(b.root, tooldir, c["tool"], args, c["data"], rng, idx)
         events.append(json.dumps({"e": "tool", "tool": c["tool"], "bs": c["bs"], "key": list(c["key"]),
                                   "tw": list(c["tw"] or b""), "twgiven": 1 if c["tw"] is not None else 0,
@@ -2044,14 +2057,16 @@ def check_C20(work, tier, seed):
     out.samples = [e[:260] for e in events[:2]] + [e[:260] for e in events[-2:]]
     return out, dict(
         level="exploration",
-        rule="Design: MC_Tools (TLC exhaustive): option classifier over abstract argv = documented conditions; chunked "
+        rule="Design: MC_Tools (TLC exhaustive): option classifier as a left-to-right pass over EVERY order of the options "
+             "= documented conditions (a length check made inside the pass must fail); chunked "
              "loops = whole-file processing for lengths 0..27 (chunk 8, block 4), a chunk size that is not a multiple "
              "of the block must fail. Code: the three binaries built from the tree, both block sizes, EVERY legal key "
              "length, counters/tweaks of lengths 1..bs incl. carries and absent, -d, file lengths 0,1,bs-1,bs,bs+1,"
              "1023,1024,1025(,2047..3089); exit status, output existence, output bytes validated by TLC against "
              "SkinnySpec (CTR stream law, ECB map, per-block tweak increment); every third case is run again on its "
-             "output (round trip); 12 classes of invalid options per tool must exit non-zero without creating the "
-             "output file. distinct = distinct (tool,bs,key length,counter length,dec,file length) and invalid classes.",
+             "output (round trip); options are given in shuffled order (and -b twice); 14+ classes of invalid options "
+             "per tool, the order-sensitive ones in several orders, must exit non-zero without creating the output "
+             "file. distinct = distinct (tool,bs,key length,counter length,dec,file length) and invalid classes.",
         assumptions=["short reads from fread() are not provoked", "hex options are plain hex digits"])
 
 
@@ -2239,6 +2254,17 @@ class SecretSc(Sc):
     def rb_nz(self, n):
         return self.rb(n)
 
+    def rctr(self, n):
+        """a (secret) counter value; the edge modes make the lane counters pass through zero
+        right after the first batch, so that carry AND borrow chains differ between runs"""
+        if self.mode == "edge8":
+            return b"\xff" * (n - 1) + b"\xf8"
+        if self.mode == "edge4":
+            return b"\xff" * (n - 1) + b"\xfc"
+        if self.mode == "edge1":
+            return b"\x00" * (n - 1) + b"\xfe" if n > 1 else b"\xfe"
+        return self.rb(n)
+
 
 def gen_c08(seed, tier, secret_mode):
     sc = SecretSc(seed, secret_mode)
@@ -2280,12 +2306,24 @@ def gen_c08(seed, tier, secret_mode):
                 sc.ctr_set_tweaked_key(kind, 0, sc.rb(2 * bs))
                 sc.ctr_set_tweak(kind, 0, sc.rb(bs - 3))
             # counter values are secret: all-FF (longest carry chain) in one run, zeros / random in others
-            sc.ctr_set_counter(kind, 0, sc.rb(bs))
+            sc.ctr_set_counter(kind, 0, sc.rctr(bs))
             for n in (1, bs - 1, bs + 1, 4 * bs, 8 * bs + 3, 2, 9 * bs):
                 sc.ctr_encrypt(kind, 0, sc.rb(n))
             sc.ctr_set_key(kind, 0, sc.rb(16 if kind == "mantis" else 3 * bs), rounds=6)     # rekey mid-stream
-            sc.ctr_set_counter(kind, 0, sc.rb(bs // 2))
+            sc.ctr_set_counter(kind, 0, sc.rctr(bs // 2))
             sc.ctr_encrypt(kind, 0, sc.rb(3 * bs + 1), ip=1)
+            # key and tweak changes with 1..B-1 pre-computed blocks still unused (the SIMD back ends
+            # step their lane counters back): after 1 block + 3 bytes, after 2 blocks, after 5 blocks + 1
+            for used in (bs + 3, 2 * bs, 5 * bs + 1):
+                sc.ctr_set_counter(kind, 0, sc.rctr(bs))
+                sc.ctr_encrypt(kind, 0, sc.rb(used))
+                sc.ctr_set_key(kind, 0, sc.rb(16 if kind == "mantis" else 2 * bs), rounds=8)
+                sc.ctr_encrypt(kind, 0, sc.rb(3))
+                if kind != "mantis":
+                    sc.ctr_set_tweaked_key(kind, 0, sc.rb(bs))
+                    sc.ctr_encrypt(kind, 0, sc.rb(bs + 1))
+                sc.ctr_set_tweak(kind, 0, sc.rb(8 if kind == "mantis" else bs))
+                sc.ctr_encrypt(kind, 0, sc.rb(2))
             sc.ctr_cleanup(kind, 0)
             sc.reset("c08-par-%s-cap%d" % (kind, cap))
             sc.par_init(kind, 0, cap=cap)
@@ -2344,7 +2382,8 @@ def lackey_run(work, b, text, tag):
 
 def check_C08(work, tier, seed):
     out = Outcome()
-    modes = ["ones", "zeros", "rand1"] if tier == "quick" else ["ones", "zeros", "rand1", "rand2", "rand3", "rand4"]
+    modes = ["ones", "zeros", "edge8", "edge4", "rand1"] if tier == "quick" else \
+        ["ones", "zeros", "edge8", "edge4", "edge1", "rand1", "rand2", "rand3", "rand4"]
     builds = [("shipped", dict())]
     if tier == "thorough":
         builds += [("w32-scalar", dict(defs=["SKINNY_VERIF_64BIT=0", "SKINNY_VERIF_VEC128_MATH=0", "SKINNY_VERIF_VEC256_MATH=0"],
@@ -2398,7 +2437,8 @@ def check_C08(work, tier, seed):
              "parallel with and without remainder, Mantis both modes, on every back end (cap 0/1/2), is executed on "
              "the shipped binary (gcc -O3, SIMD on; thorough: also the 32-bit scalar build and -O0) under "
              "valgrind/lackey once per secret assignment: all-0xFF secrets (longest counter carry chains), all-zero "
-             "secrets, seeded random secrets (quick 3, thorough 6 assignments). The complete sequence of instruction "
+             "secrets, counters chosen so that the lane counters pass through zero after the first batch (carry and "
+             "borrow chains of maximal and minimal length), seeded random secrets (quick 5, thorough 9 assignments). The complete sequence of instruction "
              "addresses and load/store addresses between marker functions is digested per call; FootTrace.tla "
              "(TLC) accepts iff the digest is a function of the call's public view (secret byte strings replaced by "
              "their lengths). distinct = distinct (public call, build) pairs; evaluations = call windows compared.",
